@@ -89,7 +89,7 @@ func (C13) Generate(r *rand.Rand, tier string, idx int) *drv.Scenario {
 		steps = append(steps, drv.Op{Op: "acheckall"})
 		k := baseKnobs(r)
 		k.AllowSplit = true
-		return &drv.Scenario{Family: family, Knobs: k, Steps: steps, Fixed: 2}
+		return lockSwarm(&drv.Scenario{Family: family, Knobs: k, Steps: steps, Fixed: 2}, idx)
 	}
 	n := 8 + r.IntN(16)
 	for i := 0; i < n; i++ {
@@ -161,7 +161,7 @@ func (C13) Generate(r *rand.Rand, tier string, idx int) *drv.Scenario {
 	steps = append(steps, drv.Op{Op: "acheckall"})
 	k := baseKnobs(r)
 	k.AllowSplit = true
-	return &drv.Scenario{Family: family, Knobs: k, Steps: steps, Fixed: 2}
+	return lockSwarm(&drv.Scenario{Family: family, Knobs: k, Steps: steps, Fixed: 2}, idx)
 }
 
 // ---- element model ----
